@@ -27,16 +27,16 @@ func init() {
 }
 
 func runC04(c *core.Ctx) {
-	ruleFirstEntryWins(c)
-	ruleReadXRefOrder(c)
-	ruleOffsetProvenance(c)
-	ruleGetGuards(c)
-	ruleStreamLength(c)
-	ruleC04Lexical(c)
-	ruleObjStmLookup(c)
-	ruleTrimOneEOL(c)
-	rulePrevChainFollowed(c)
-	ruleXRefTableEntryEOL(c)
+	c.Guard(func() { ruleFirstEntryWins(c) })
+	c.Guard(func() { ruleReadXRefOrder(c) })
+	c.Guard(func() { ruleOffsetProvenance(c) })
+	c.Guard(func() { ruleGetGuards(c) })
+	c.Guard(func() { ruleStreamLength(c) })
+	c.Guard(func() { ruleC04Lexical(c) })
+	c.Guard(func() { ruleObjStmLookup(c) })
+	c.Guard(func() { ruleTrimOneEOL(c) })
+	c.Guard(func() { rulePrevChainFollowed(c) })
+	c.Guard(func() { ruleXRefTableEntryEOL(c) })
 }
 
 func ruleFirstEntryWins(c *core.Ctx) {
@@ -899,7 +899,7 @@ func ruleStreamLength(c *core.Ctx) {
 			o.At(fn.Site(as, "extent := declared"))
 			ok2 := g.GuardedBy(v, func(a core.Atom) bool {
 				if call, ok := a.HoldsCall(info, false, "pdf.endstreamAt"); ok {
-					return core.Mentions(info, call.Args[1], declared)
+					return anyArgMentions(info, call, declared)
 				}
 				// or a boolean that is only ever false or the result of endstreamAt(start+declared)
 				id, ok := ast.Unparen(a.Expr).(*ast.Ident)
@@ -915,7 +915,7 @@ func ruleStreamLength(c *core.Ctx) {
 				if lobj := core.ObjOf(info, as.Lhs[0]); lobj != nil {
 					pred := func(a core.Atom) bool {
 						if call, ok := a.HoldsCall(info, false, "pdf.endstreamAt"); ok {
-							return core.Mentions(info, call.Args[1], declared)
+							return anyArgMentions(info, call, declared)
 						}
 						id, ok := ast.Unparen(a.Expr).(*ast.Ident)
 						if !ok || a.Neg || a.Tag != nil {
@@ -1970,7 +1970,7 @@ func isEndstreamFlagDepth(fn *core.Func, obj types.Object, declared types.Object
 			return false
 		}
 		call, ok := ast.Unparen(rhs).(*ast.CallExpr)
-		if !ok || core.CalleeKey(info, call) != "pdf.endstreamAt" || !core.Mentions(info, call.Args[1], declared) {
+		if !ok || core.CalleeKey(info, call) != "pdf.endstreamAt" || !anyArgMentions(info, call, declared) {
 			return false
 		}
 		fromCall = true
@@ -2560,6 +2560,17 @@ func ruleXRefTableEntryEOL(c *core.Ctx) {
 func mentionsAny(es []ast.Expr, pred func(ast.Expr) bool) bool {
 	for _, e := range es {
 		if pred(e) {
+			return true
+		}
+	}
+	return false
+}
+
+// anyArgMentions: some argument of the call mentions obj (the position probed
+// by endstreamAt, wherever it stands among the parameters).
+func anyArgMentions(info *types.Info, call *ast.CallExpr, obj types.Object) bool {
+	for _, a := range call.Args {
+		if core.Mentions(info, a, obj) {
 			return true
 		}
 	}
